@@ -2,6 +2,7 @@ package main
 
 import (
 	"fmt"
+	"go/token"
 	"sort"
 	"strings"
 
@@ -10,65 +11,68 @@ import (
 
 func init() { register("C11", checkC11) }
 
-// serviceOfLocationStore: for a store to md.EndpointType.Location inside getMetadata, the descriptor list
-// field the element belongs to (SingleSignOnService, ...) and the endpoint field whose Absolute() is stored.
+// endpointTable: descriptor list (SingleSignOnService, ...) -> endpoint fields of provider.Endpoints whose
+// Absolute(issuer) is advertised as a Location of that list. The lists are walked as they are built - literals,
+// appends, helper functions returning the list or an element - with the call-site context of the helpers active.
 func (cx *Ctx) endpointTable(fn *ssa.Function) (map[string]map[string]bool, []string) {
-	w, fx := cx.W, cx.Fx
+	w := cx.W
 	out := map[string]map[string]bool{}
 	var problems []string
-	for _, st := range fx.info(fn).stores {
-		fa, ok := st.Addr.(*ssa.FieldAddr)
-		if !ok || fieldOwner(fa.X.Type()) != "md.EndpointType" || fieldVar(fa.X.Type(), fa.Field).Name() != "Location" {
-			continue
-		}
-		// which list: the element is built in a local composite and copied into a slot of the list's array
-		list := ""
-		elem := fa.X
-		if al, ok := elem.(*ssa.Alloc); ok {
-			for _, ref := range *al.Referrers() {
-				if ld, ok := ref.(*ssa.UnOp); ok {
-					for _, r2 := range *ld.Referrers() {
-						if s2, ok := r2.(*ssa.Store); ok && s2.Val == ssa.Value(ld) {
-							elem = s2.Addr
+	vf := cx.vflow(w.FuncKey(fn))
+	if vf == nil {
+		return out, []string{"getMetadata not analysable"}
+	}
+	issuerLabel := fmt.Sprintf("param:%s/#2", w.FuncKey(fn))
+	vf.stopAt = func(c *ssa.Call) bool {
+		f := calleeOf(c)
+		return f != nil && w.FuncKey(f) == "provider.(Endpoint).Absolute"
+	}
+	defer func() { vf.stopAt = nil }()
+	for _, list := range []struct{ owner, field string }{{"md.IDPSSODescriptorType", "SingleSignOnService"}, {"md.IDPSSODescriptorType", "SingleLogoutService"}, {"md.AttributeAuthorityDescriptorType", "AttributeService"}} {
+		_, sites := vf.FieldStoreSources(list.owner, list.field)
+		for _, st := range sites {
+			okList := vf.forEachElem(st.Val, func(elem ssa.Value) {
+				nLoc := 0
+				okElem := vf.forEachField(elem, "Location", func(loc ssa.Value) {
+					nLoc++
+					okLoc := vf.resolve(loc, func(d ssa.Value) {
+						c, isC := d.(*ssa.Call)
+						if !isC || !vf.stopAt(c) {
+							problems = append(problems, "a Location of "+list.field+" is not <endpoint>.Absolute(issuer) ("+cx.Fx.path(d)+" at "+w.InstrPos(st)+")")
+							return
 						}
-					}
-				}
-			}
-		}
-		if ia, ok := elem.(*ssa.IndexAddr); ok {
-			if arr, ok := ia.X.(*ssa.Alloc); ok {
-				for _, ref := range *arr.Referrers() {
-					if sl, ok := ref.(*ssa.Slice); ok {
-						for _, r2 := range *sl.Referrers() {
-							if s2, ok := r2.(*ssa.Store); ok {
-								if fa2, ok := s2.Addr.(*ssa.FieldAddr); ok {
-									list = fieldVar(fa2.X.Type(), fa2.Field).Name()
+						ep := ""
+						vf.resolve(c.Call.Args[0], func(e ssa.Value) {
+							if ld, isLd := e.(*ssa.UnOp); isLd && ld.Op == token.MUL {
+								if fa, isFA := ld.X.(*ssa.FieldAddr); isFA && fieldOwner(fa.X.Type()) == "provider.Endpoints" {
+									ep = fieldVar(fa.X.Type(), fa.Field).Name()
 								}
 							}
+						}, map[ssa.Value]bool{}, 0)
+						if ep == "" {
+							problems = append(problems, "a Location of "+list.field+" is Absolute() of something that is not a field of the provider's Endpoints ("+cx.Fx.path(c.Call.Args[0])+" at "+w.InstrPos(c)+")")
+							return
 						}
+						if ls := vf.Labels(c.Call.Args[1]).leaves(); len(ls) != 1 || ls[0] != issuerLabel {
+							problems = append(problems, fmt.Sprintf("Location of %s is made absolute with %v instead of the request's issuer", list.field, ls))
+						}
+						if out[list.field] == nil {
+							out[list.field] = map[string]bool{}
+						}
+						out[list.field][ep] = true
+					}, map[ssa.Value]bool{}, 0)
+					if !okLoc {
+						problems = append(problems, "a Location of "+list.field+" could not be followed to its definition at "+w.InstrPos(st))
 					}
+				}, 0)
+				if !okElem || nLoc == 0 {
+					problems = append(problems, "an element of "+list.field+" has no followable Location ("+cx.Fx.path(elem)+" at "+w.InstrPos(st)+")")
 				}
+			}, 0)
+			if !okList {
+				problems = append(problems, "the construction of "+list.field+" at "+w.InstrPos(st)+" could not be followed")
 			}
 		}
-		// which endpoint
-		ep := ""
-		if c, ok := st.Val.(*ssa.Call); ok {
-			if f := calleeOf(c); f != nil && w.FuncKey(f) == "provider.(Endpoint).Absolute" {
-				p := fx.path(c.Call.Args[0])
-				ep = p[strings.LastIndex(p, ".")+1:]
-				if fx.T(fx.path(c.Call.Args[1])) != "<#2 string>" {
-					problems = append(problems, "Location of "+list+" is made absolute with "+fx.path(c.Call.Args[1])+" instead of the request's issuer")
-				}
-			}
-		}
-		if list == "" || ep == "" {
-			problems = append(problems, "a Location at "+w.InstrPos(st)+" is not <endpoint>.Absolute(issuer) of a descriptor list ("+fx.path(st.Val)+")")
-			continue
-		}
-		if out[list] == nil {
-			out[list] = map[string]bool{}
-		}
-		out[list][ep] = true
 	}
 	return out, problems
 }
@@ -252,16 +256,7 @@ func checkC11(cx *Ctx, r *Report) {
 	// --- one certificate -----------------------------------------------------------------------------------
 	cert := []string{"ext:iface:provider.IdentityProviderStorage.GetResponseSigningKey#0.Certificate", "global:base64.StdEncoding"}
 	if vm != nil {
-		ls, sites := vm.FieldStoreSources("xml_dsig.X509DataType", "X509Certificate")
-		var own []*ssa.Store
-		lso := LabelSet{}
-		for _, st := range sites {
-			if w.FuncKey(st.Parent()) == "provider.(*IdentityProviderConfig).getMetadata" {
-				own = append(own, st)
-				lso.addAll(vm.Labels(st.Val), 0)
-			}
-		}
-		_ = ls
+		lso, own := vm.StoreSourcesIn("provider.(*IdentityProviderConfig).getMetadata", "xml_dsig.X509DataType", "X509Certificate")
 		if len(own) == 0 {
 			r.Fail("R-VFG", "metadata:KeyDescriptor-certificate", "", "getMetadata fills no X509Certificate")
 		} else {
